@@ -142,6 +142,8 @@ type world struct {
 	opts worldOpts
 	node *v3core.Node
 	hung bool
+	// created: when the manager (and with it the real cleaner's 30 s ticker) was started
+	created time.Time
 }
 
 const inboundStamp = "inbound-rc"
@@ -156,7 +158,7 @@ func newWorld(o worldOpts) (*world, error) {
 	if o.fetchTimeout == 0 {
 		o.fetchTimeout = 30 * time.Millisecond
 	}
-	w := &world{ads: &fakeADS{}, opts: o, node: &v3core.Node{Id: "sidecar~1.1.1.1~pod." + o.ns + "~" + o.ns + ".svc." + o.domain}}
+	w := &world{created: time.Now(), ads: &fakeADS{}, opts: o, node: &v3core.Node{Id: "sidecar~1.1.1.1~pod." + o.ns + "~" + o.ns + ".svc." + o.domain}}
 	svr := &manager.XDSServerConfig{SvrName: "fake", SvrAddr: "fake:0", NDSNotRequired: o.ndsNotRequired,
 		LDSNotRequired: o.ldsNotRequired, FetchXDSTimeout: o.fetchTimeout}
 	bc := manager.NewBootstrapConfigForVerif(o.ns, o.domain, w.node, svr)
